@@ -76,3 +76,25 @@ def simulate (n per burst : Nat) (delay : Nat → Nat) (horizon : Nat) : Nat × 
   (c, submitted.length, (submitted.map (fun j => (jobResult n per j).count)).sum)
 
 end Pyndl
+
+namespace Pyndl
+
+/-! ### conversion jobs that fail (repeated cue under the default policy, a
+write beyond the storage budget, …): the error callback records the error and
+closes the pool; the caller re-raises after joining (preprocess.py, after the
+repair of F2). -/
+
+def closesF (n per : Nat) (failing : Nat → Bool) (j : Nat) : Bool :=
+  (jobResult n per j).closes || failing j
+
+/-- `(close time, raises?, count of the jobs that did not fail)`; `f0` is the
+    first job whose completion closes the pool. -/
+def simulateF (n per burst : Nat) (delay : Nat → Nat) (failing : Nat → Bool) (f0 horizon : Nat) :
+    Nat × Bool × Nat :=
+  let c := ((List.range (horizon + 1)).filter (closesF n per failing)).foldl
+    (fun m j => min m (tDone delay burst j)) (tDone delay burst f0)
+  let submitted := (List.range (horizon + 1)).filter (fun j => decide (tSubmit delay burst j ≤ c))
+  (c, submitted.any failing,
+    ((submitted.filter (fun j => !failing j)).map (fun j => (jobResult n per j).count)).sum)
+
+end Pyndl
